@@ -3,7 +3,7 @@
     lemma proved elsewhere, with [Print Assumptions] beneath.  bin/pqv
     re-checks every statement with [Check (name : forall ..., statement)] and
     every [Print Assumptions] on each run. *)
-From PQV Require Import AbsPQProofs AbsCostProofs ListProofs IterProofs UnwindProofs HashIndep GhostIndep Final EqRel.
+From PQV Require Import AbsPQProofs AbsCostProofs ListProofs IterProofs UnwindProofs HashIndep GhostIndep Final EqRel ClearDrop.
 From PQV Require Export PropSpec.
 
 (* C01 *)
@@ -350,3 +350,8 @@ Print Assumptions C14_eq_equivalence.
 Theorem C15_roundtrip_rel : forall (I P : Type) (keq : I -> I -> bool) (hash : I -> N) (ple : P -> P -> bool) (peq : P -> P -> bool), C15_roundtrip_rel_stmt keq hash ple peq.
 Proof. intros; apply @EqRel.C15_roundtrip_rel_thm. Qed.
 Print Assumptions C15_roundtrip_rel.
+
+(* C16 *)
+Theorem C16_clear_any_drop : forall (I P : Type) (keq : I -> I -> bool) (hash : I -> N) (ple : P -> P -> bool) (peq : P -> P -> bool) (alloc_limit : N), C16_clear_any_drop_stmt keq hash ple peq alloc_limit.
+Proof. intros; apply @ClearDrop.C16_clear_any_drop. Qed.
+Print Assumptions C16_clear_any_drop.
